@@ -1,7 +1,7 @@
 (* C12  Training from statistics is independent of bag partitioning and scheduling. *)
 From Coq Require Import Reals List.
 From Coq Require String.
-From BLE Require Import Num.InstR Model.IVector Generated.Facts Proofs.RLemmas Proofs.IVectorR Proofs.Sched.
+From BLE Require Import Num.InstR Model.IVector Generated.Facts Proofs.RLemmas Proofs.IVectorR Proofs.FactsDefs Proofs.Sched.
 Import ListNotations IR.
 Open Scope R_scope.
 
